@@ -149,6 +149,8 @@ def run(ctx):
             stale.append(name)
     n = 1200 if ctx.tier == "quick" else 60000
     cases = [gen_intent(rng) for _ in range(n)]
+    # concept names that are also MathML token element names (the applied name must not be taken for a token again: 038-style panic fixed in the curried case)
+    cases += [("mi($a)($f)", "grammar"), ("mtext($a,$f)($f)", "grammar"), ("mn($a)($f)($a)", "grammar"), ("mo($f)", "grammar"), ("mi($a)", "grammar")]
     cases += [("f($a)", "grammar"), ("f($a,$op)", "grammar"), (" plus ( $a , $f ) ", "grammar"), ("$op($f,$a)", "grammar"), ("f(g($a)(3))", "grammar"), (":prefix", "properties"),
               ("plus($a,$f)", "grammar"), ("sum_of($f, $a, 3)", "grammar"), ("a-b( $a )", "grammar"), ("g(x,$f)", "grammar"),
               ("f(", "mutated"), ("f()", "mutated"), ("f($a,)", "mutated"), ("$zz", "mutated"), ("f($a))", "mutated"), ("", "mutated"), ("   ", "mutated"), ("f(" * 40 + "x" + ")" * 40, "grammar")]
